@@ -13,6 +13,8 @@ MODULES = [
     "contracts.c_shutdown",
     "contracts.c_bind",
     "contracts.c_init",
+    "contracts.c_proxy",
+    "contracts.c_misc",
 ]
 EXPECTED_MIN_OBLIGATIONS = {}
 PROPERTY_ASSUMPTIONS = {}
